@@ -43,6 +43,7 @@ GEN = {
     "KW": "CREATE TABLE kw (start int, cache int, comment varchar(3), location int);",
     "ALTTAB": "CREATE TABLE a1 (p int, q int);",
     "ALTTAB2": "CREATE TABLE s7.a1 (p int, q int, r int);",
+    "ALTTAB4": "CREATE TABLE #a1 (p int, q int, u int);",
     "ALTTAB3": "CREATE TABLE a$1 (p int, q int, t int);",  # a name that differs from a1 only by a non-word character  # same name in another schema: the ALTER/INDEX statements below name a1 only
     "SET": "SET x = 1;",
     "DROP": "DROP TABLE zz;",
@@ -66,6 +67,7 @@ UNS = {
     "USE": "USE db1;", "GO": "GO", "COMMIT": "COMMIT;", "DEL": "DELETE FROM t1;", "UPD": "UPDATE t1 SET a = 2;",
     "TRUNC": "TRUNCATE TABLE t1;", "COMM": "COMMENT ON TABLE t1 IS 'x';", "DROPI": "DROP INDEX i1;", "ALTSEQ": "ALTER SEQUENCE q RESTART;",
     # unsupported ALTER TABLE forms of mysqldump / pg_dump that share a prefix with supported ones
+    "ALTSERDE": "ALTER TABLE a1 SET SERDEPROPERTIES (\"input.regex\" = \"(x.*)\");",
     "ALTCS": "ALTER TABLE a1 DEFAULT CHARACTER SET utf8mb4 COLLATE utf8mb4_bin;", "ALTOWN": "ALTER TABLE a1 OWNER TO joe;",
     "ALTDIS": "ALTER TABLE a1 DISABLE TRIGGER ALL;",
     "CALL": "CALL p(1);", "MERGE": "MERGE INTO t USING s ON t.a = s.a WHEN MATCHED THEN UPDATE SET b = 1;",
